@@ -738,3 +738,46 @@ func ruleRollbackUndoesFrees(c *Ctx, id string) {
 		}
 	})
 }
+
+// checkOpenedBeforeOpenFile: (*DB).close is a no-op unless db.opened is set, so the
+// cleanup on Open's error exits only works if `opened` is already true when the
+// file is opened and locked (two cooperating sites: the flag in Open, the early
+// return in close).
+func checkOpenedBeforeOpenFile(c *Ctx, id string) {
+	open := c.fn("bbolt.Open")
+	openedF := c.dbField("opened")
+	cl := c.fn("bbolt.(*DB).close")
+	// close's early return is exactly the `!db.opened` guard
+	guardOK := false
+	entry := cl.Blocks[0]
+	if iff, isIf := entry.Instrs[len(entry.Instrs)-1].(*ssa.If); isIf && pathOf(iff.Cond).Last() == openedF {
+		guardOK = true
+	}
+	var setTrue ssa.Instruction
+	bad := ""
+	for _, st := range storesToField([]*ssa.Function{open}, openedF) {
+		if b, isC := constBool(st.Val); isC && b {
+			setTrue = st.Instr
+		} else {
+			bad = "Open stores a value other than true into DB.opened"
+		}
+	}
+	ofs := fieldCallsIn(open, c.dbField("openFile"))
+	n := 0
+	if setTrue == nil {
+		bad = "Open never sets DB.opened"
+	} else {
+		for _, o := range ofs {
+			if !dominates(setTrue, o.(ssa.Instruction)) {
+				bad = "the file is opened (and then locked) before db.opened is set: close() on an error exit returns early and leaks descriptor and lock"
+			}
+		}
+		for _, call := range plainCallsIn(open, "bbolt.(*DB).close") {
+			n++
+			if !dominates(setTrue, call) {
+				bad = "db.close() at " + c.P.Position(call.Pos()) + " can run with db.opened still false (it would do nothing)"
+			}
+		}
+	}
+	c.check(id+":bbolt.Open:opened-before-openFile", open, open.Pos(), fmt.Sprintf("DB.opened is set to true before the file is opened, so each of the %d db.close() calls on Open's error exits really closes the descriptor (close is a no-op while !db.opened)", n), bad == "" && guardOK && len(ofs) == 1 && n > 0, bad)
+}
